@@ -6,6 +6,7 @@ the transform lists its registers.  Every case runs in several worker processes
 with different PYTHONHASHSEED values so that different iteration orders of the
 symbol set occur; the orders actually observed are merged and reported.
 """
+import math
 import hashlib
 import random
 
@@ -164,6 +165,34 @@ def check_text(ctx, text, tags=()):
         if d:
             return ctx.violation("after-%s:" % what + common.diff_key(d), "after %s the program's transforms no longer compute the written formulas: %s" % (what, common.diff_text(d)), witness)
         ctx.hook("transforms re-checked after " + what)
+    # measurement outcomes are often integers (photon numbers): a transform given Python integers must compute the
+    # same formula as with the equal floats - no wrap-around in fixed-width integer arithmetic, no integer division
+    import random as _random
+
+    for o in c["ops"]:
+        for a in list(o["args"] or []) + [v for _, v in (o["kwargs"] or [])]:
+            if content.kind(a) != "regref":
+                continue
+            rr_ = _random.Random("C08-int/%s/%s" % (text, a.func_str if hasattr(a, "func_str") else ""))
+            for scale in (7, 3000, 4000000, 3000000000):
+                ints = [rr_.randint(max(2, scale // 3), scale) * rr_.choice([1, 1, -1]) for _ in a.regrefs]
+                try:
+                    with common.time_limit(10):
+                        ff = complex(a.func(*[float(x) for x in ints]))
+                        f2 = complex(a.func(*[float(x) * (1 + 1e-12) for x in ints]))
+                except Exception:
+                    continue
+                if not (math.isfinite(ff.real) and math.isfinite(ff.imag)) or abs(ff) == 0 or abs(f2 - ff) > 1e-7 * abs(ff):
+                    continue    # not finite or not well conditioned at this point: no verdict
+                ctx.hook("transform evaluated at integer measurement values")
+                try:
+                    with common.time_limit(10):
+                        fi = complex(a.func(*ints))
+                except Exception as e:
+                    return ctx.violation("integer-measurement:raises:" + type(e).__name__,
+                                         "transform %s raised %s for the integer measurement values %s (fine with the equal floats: %r)" % (a, common.exc_text(e), ints, ff), witness)
+                if not abs(fi - ff) <= 1e-6 * abs(ff):
+                    return ctx.violation("integer-measurement:value", "transform %s gives %r for the integer measurement values %s and %r for the equal floats" % (a, fi, ints, ff), witness)
     # record the listed orders of multi-register transforms (evidence of order diversity)
     h = hashlib.sha1(text.encode()).hexdigest()[:12]
     orders = ctx.extra.setdefault("orders", {})
